@@ -181,6 +181,7 @@ def mapOps (N : NestedSut V VOp) : CrdtOps (MapT V) (MapOpT VOp) where
     | .up d _ _ => some (showDot d)
     | .rm _ _ => none
   spec := specMapKeys
+  sharedDot := some (fun a b => sharedDotTables (a.entries.l.map (fun p => (p.1, p.2.clock))) (b.entries.l.map (fun p => (p.1, p.2.clock))))
   ok := fun U K op => match op with
     | .up d _ _ => U.all (fun o' => match o' with
         | .up d' k' op' => !(d'.actor = d.actor && d'.counter < d.counter) ||
